@@ -2578,6 +2578,30 @@ _archive_write_disk_close(struct archive *_a)
 			goto skip_fixup_entry;
 		else {
 			/*
+			 * The path was checked when the fixup was queued,
+			 * but an entry restored since then may have replaced
+			 * one of its leading directories by a symlink, and
+			 * O_NOFOLLOW below only guards the last element
+			 * (and not at all for a name ending in "/.").
+			 * Walk the cleaned-up path again.
+			 */
+			if (a->flags & ARCHIVE_EXTRACT_SECURE_SYMLINKS) {
+				struct archive_string error_string;
+				int error_number, r;
+
+				archive_string_init(&error_string);
+				r = cleanup_pathname_fsobj(p->name,
+				    &error_number, &error_string, a->flags);
+				if (r == ARCHIVE_OK)
+					r = check_symlinks_fsobj(p->name,
+					    &error_number, &error_string,
+					    a->flags & ~ARCHIVE_EXTRACT_UNLINK,
+					    1);
+				archive_string_free(&error_string);
+				if (r != ARCHIVE_OK)
+					goto skip_fixup_entry;
+			}
+			/*
 			 * We need to verify if the type of the file
 			 * we are going to open matches the file type
 			 * of the fixup entry.
